@@ -378,6 +378,17 @@ func strideAgreementRule(r *Report) {
 		}
 		stores = append(stores, slotStore{s, hole})
 	}
+	// served positions filled from a closure (deferred or concurrent) are unordered with respect to the refill
+	for _, af := range fn.AnonFuncs {
+		for _, f := range WithAnons(af) {
+			for _, s := range Sites(f, func(in ssa.Instruction) bool { _, ok := in.(*ssa.Store); return ok }) {
+				st := s.Instr.(*ssa.Store)
+				if ia, ok := st.Addr.(*ssa.IndexAddr); ok && shortType(st.Val.Type()) == "rueidis.RedisResult" && strings.HasSuffix(DescDeep(ia.X), ".s") {
+					r.ObSite("R11e", s, "served-position-filled-from-closure", false, "a result position is filled from a closure whose execution is not ordered before the hole refill")
+				}
+			}
+		}
+	}
 	nH := 0
 	for _, h := range stores {
 		if !h.hole {
